@@ -35,13 +35,31 @@ pub fn soup_to_mp(tris: &[[IV; 3]], merge_collinear: bool, map: &dyn Fn(IV) -> P
     }
     let mut rings: Vec<Vec<IV>> = Vec::new();
     let keys: Vec<IV> = out.keys().cloned().collect();
+    // At a vertex where several boundary edges leave, continue with the one that turns left most (the interior is on
+    // the left of every directed boundary edge): the walk then hugs one interior corner after the other, so two rings
+    // may touch at such a vertex but never cross there.
+    let turn = |from: IV, at: IV, to: IV| -> f64 {
+        let (ux, uy) = ((at.0 - from.0) as f64, (at.1 - from.1) as f64);
+        let (vx, vy) = ((to.0 - at.0) as f64, (to.1 - at.1) as f64);
+        (ux * vy - uy * vx).atan2(ux * vx + uy * vy)
+    };
     for k in keys {
         while let Some(first) = out.get_mut(&k).and_then(|v| v.pop()) {
             let mut ring = vec![k];
+            let mut prev = k;
             let mut cur = first;
             while cur != k {
                 ring.push(cur);
-                cur = out.get_mut(&cur).unwrap().pop().unwrap();
+                let cands = out.get_mut(&cur).unwrap();
+                let mut best = 0;
+                for i in 1..cands.len() {
+                    if turn(prev, cur, cands[i]) > turn(prev, cur, cands[best]) {
+                        best = i;
+                    }
+                }
+                let next = cands.swap_remove(best);
+                prev = cur;
+                cur = next;
             }
             let mut stack: Vec<IV> = Vec::new();
             for v in ring {
